@@ -56,7 +56,7 @@ impl Prop for C06 {
         ]
     }
     fn cases(tier: Tier) -> u64 {
-        tier.pick(20_000, 400_000)
+        tier.pick(20_000, 100_000)
     }
     fn strategy(tier: Tier) -> BoxedStrategy<Case> {
         prop_oneof![
